@@ -63,6 +63,54 @@ impl core::ops::Add for OrdF32 {
     }
 }
 
+macro_rules! float_tree_checks {
+    ($run:ident, $desc:ident, $weights:ident, $F:ty, $O:ident) => {{
+        let run = $run;
+        let desc = $desc;
+        let weights = $weights;
+        let n = weights.len();
+    let enc = EncoderHuffmanTree::from_float_probabilities::<$F, _>(&weights).unwrap();
+    let dec = DecoderHuffmanTree::from_float_probabilities::<$F, _>(&weights).unwrap();
+    let reference = reference_codewords(&weights.iter().map(|&w| $O(w)).collect::<Vec<_>>());
+    let mut codewords = Vec::with_capacity(n);
+    for s in 0..n {
+        let mut pre = Vec::new();
+        let mut suf = Vec::new();
+        enc.encode_symbol_prefix(s, |b| { pre.push(b); Ok::<(), core::convert::Infallible>(()) }).unwrap();
+        enc.encode_symbol_suffix(s, |b| { suf.push(b); Ok::<(), core::convert::Infallible>(()) }).unwrap();
+        suf.reverse();
+        if pre != suf {
+            run.violation("huffman", "C15/prefix-vs-suffix", format!("{desc} :: symbol {s}: prefix {:?} vs reversed suffix {:?}", pre, suf));
+            return;
+        }
+        match dec.decode_symbol(pre.iter().map(|&b| Ok::<bool, core::convert::Infallible>(b))) {
+            Ok(g) if g == s => {}
+            other => {
+                run.violation("huffman", "C15/decode", format!("{desc} :: the encoder tree's codeword {:?} of symbol {s} decodes to {other:?} with the decoder tree built from the same weights", pre));
+                return;
+            }
+        }
+        if pre != reference[s] {
+            run.violation("huffman", "C15/tie-break-or-shape", format!("{desc} :: symbol {s}: codeword {:?}, reference construction in the same float arithmetic gives {:?}", pre, reference[s]));
+            return;
+        }
+        codewords.push(pre);
+    }
+    if n >= 2 {
+        let lmax = codewords.iter().map(|c| c.len()).max().unwrap();
+        if lmax < 120 {
+            let kraft: u128 = codewords.iter().map(|c| 1u128 << (lmax - c.len())).sum();
+            if kraft != 1u128 << lmax {
+                run.violation("huffman", "C15/kraft", format!("{desc} :: Kraft sum {kraft} / 2^{lmax} != 1"));
+                return;
+            }
+        }
+    }
+    run.count("codewords_checked", n as u64);
+    run.describe(|| desc);
+    }};
+}
+
 /// f32 weights with inexact sums (decimal fractions, ties created or destroyed by rounding):
 /// mutual consistency of encoder and decoder trees, codeword equality with the reference run
 /// in f32 arithmetic, prefix-freeness and Kraft. (Optimality is only decidable exactly, so it
@@ -86,45 +134,66 @@ fn case_f32(run: &mut Run, rng: &mut Rng) {
     run.nontrivial();
     let desc = format!("Huffman [f32, inexact sums] n={n} weights {:?}", if n <= 40 { weights.clone() } else { weights[..40].to_vec() });
     run.note(|| desc.clone());
-    let enc = EncoderHuffmanTree::from_float_probabilities::<f32, _>(&weights).unwrap();
-    let dec = DecoderHuffmanTree::from_float_probabilities::<f32, _>(&weights).unwrap();
-    let reference = reference_codewords(&weights.iter().map(|&w| OrdF32(w)).collect::<Vec<_>>());
-    let mut codewords = Vec::with_capacity(n);
-    for s in 0..n {
-        let mut pre = Vec::new();
-        let mut suf = Vec::new();
-        enc.encode_symbol_prefix(s, |b| { pre.push(b); Ok::<(), core::convert::Infallible>(()) }).unwrap();
-        enc.encode_symbol_suffix(s, |b| { suf.push(b); Ok::<(), core::convert::Infallible>(()) }).unwrap();
-        suf.reverse();
-        if pre != suf {
-            run.violation("huffman", "C15/prefix-vs-suffix", format!("{desc} :: symbol {s}: prefix {:?} vs reversed suffix {:?}", pre, suf));
-            return;
-        }
-        match dec.decode_symbol(pre.iter().map(|&b| Ok::<bool, core::convert::Infallible>(b))) {
-            Ok(g) if g == s => {}
-            other => {
-                run.violation("huffman", "C15/decode", format!("{desc} :: the encoder tree's codeword {:?} of symbol {s} decodes to {other:?} with the decoder tree built from the same weights", pre));
-                return;
+    float_tree_checks!(run, desc, weights, f32, OrdF32);
+}
+
+#[derive(Clone, Copy, PartialEq, PartialOrd)]
+struct OrdF64(f64);
+impl Eq for OrdF64 {}
+#[allow(clippy::derive_ord_xor_partial_ord)]
+impl Ord for OrdF64 {
+    fn cmp(&self, o: &Self) -> std::cmp::Ordering {
+        self.0.partial_cmp(&o.0).expect("no NaN")
+    }
+}
+impl core::ops::Add for OrdF64 {
+    type Output = OrdF64;
+    fn add(self, o: OrdF64) -> OrdF64 {
+        OrdF64(self.0 + o.0)
+    }
+}
+
+/// Very deep trees: f64 weights growing geometrically (powers of two, powers of three,
+/// Fibonacci numbers far beyond 2^53) give code words of 100 .. 250 bits - longer than any
+/// integer register an implementation might collect a code word in. Same checks as above.
+fn case_deep_f64(run: &mut Run, rng: &mut Rng) {
+    let n = rng.usize_in(if run.small { 60 } else { 100 }, if run.small { 70 } else { 250 });
+    let style = rng.below(3);
+    let mut weights: Vec<f64> = Vec::with_capacity(n);
+    let (mut a, mut b) = (1.0f64, 1.0f64);
+    for i in 0..n {
+        weights.push(match style {
+            0 => (2.0f64).powi(i as i32),
+            1 => (3.0f64).powi(i as i32),
+            _ => {
+                let r = a;
+                let c = a + b;
+                a = b;
+                b = c;
+                r
+            }
+        });
+    }
+    match rng.below(3) {
+        0 => weights.reverse(),
+        1 => {
+            // a mild shuffle keeps the tree deep but changes which symbols are deep
+            for _ in 0..n / 4 {
+                let (i, j) = (rng.below(n as u64) as usize, rng.below(n as u64) as usize);
+                weights.swap(i, j);
             }
         }
-        if pre != reference[s] {
-            run.violation("huffman", "C15/tie-break-or-shape", format!("{desc} :: symbol {s}: codeword {:?}, reference construction in f32 arithmetic gives {:?}", pre, reference[s]));
-            return;
-        }
-        codewords.push(pre);
+        _ => {}
     }
-    if n >= 2 {
-        let lmax = codewords.iter().map(|c| c.len()).max().unwrap();
-        if lmax < 120 {
-            let kraft: u128 = codewords.iter().map(|c| 1u128 << (lmax - c.len())).sum();
-            if kraft != 1u128 << lmax {
-                run.violation("huffman", "C15/kraft", format!("{desc} :: Kraft sum {kraft} / 2^{lmax} != 1"));
-                return;
-            }
-        }
+    for w in &weights {
+        run.h(w.to_bits());
     }
-    run.count("codewords_checked", n as u64);
-    run.describe(|| desc);
+    run.count("weight_vectors", 1);
+    run.count("deep_f64_weight_vectors", 1);
+    run.nontrivial();
+    let desc = format!("Huffman [f64, geometric weights, style {style}] n={n} first weights {:?}", &weights[..8]);
+    run.note(|| desc.clone());
+    float_tree_checks!(run, desc, weights, f64, OrdF64);
 }
 
 /// Optimal total weighted length by the two-queue method.
@@ -320,7 +389,9 @@ fn case_inner(run: &mut Run, rng: &mut Rng) {
 }
 
 pub fn case(run: &mut Run, rng: &mut Rng) {
-    if rng.chance(1, 5) {
+    if rng.chance(1, 25) {
+        case_deep_f64(run, rng)
+    } else if rng.chance(1, 5) {
         case_f32(run, rng)
     } else {
         case_inner(run, rng)
